@@ -453,7 +453,7 @@ def run(ctx, rep):
             return call
         hooks = {"self.on_service_added": cb("added"), "self.on_service_removed": cb("removed"), "time.time": lambda: NOW}
         for lv in ("debug", "info", "warn", "warning", "error", "exception"):
-            hooks["self.logger." + lv] = lambda *a: None
+            hooks["self.logger." + lv] = lambda *a, **k: None
         state = _init_fields(ctx, rs)
         state.update({"services": _copy.deepcopy(table)})
         err = None
@@ -562,6 +562,8 @@ def run(ctx, rep):
             events.append((t, "data", GARBAGE, (H3, 1)))
             events.append((t, "data", ("RPYC", 17, ()), (H3, 1)))
             events.append((t, "data", ("RPYC", "NOSUCH", ()), (H3, 1)))
+            events.append((t, "data", ("RPYC", "QUERY", ()), (H3, 1)))
+            events.append((t, "data", ("RPYC", "REGISTER", (5, 6)), (H3, 1)))
         state = _init_fields(ctx, rs)
         state.update({"services": {}, "pruning_timeout": TMO, "active": True})
         pos = [0]
@@ -586,7 +588,7 @@ def run(ctx, rep):
                  "self.on_service_added": lambda n, a: fired.append(("added", n, a)),
                  "self.on_service_removed": lambda n, a: fired.append(("removed", n, a))}
         for lv in ("debug", "info", "warn", "warning", "error", "exception"):
-            hooks["self.logger." + lv] = lambda *a: None
+            hooks["self.logger." + lv] = lambda *a, **k: None
         extra = {"__calls__": hooks, "__max_iter__": 2000,
                  "__methods__": {k: v for k, v in methods.items() if k not in ("on_service_added", "on_service_removed", "_recv", "_send")}}
         extra["__global_lookup__"] = K.module_function_lookup(ctx, rs.module, extra, skip=("time", "brine", "socket", "sys"))
@@ -680,7 +682,7 @@ def run(ctx, rep):
                  "self.on_service_added": lambda n, a: fired.append(("added", n, a)),
                  "self.on_service_removed": lambda n, a: fired.append(("removed", n, a))}
         for lv in ("debug", "info", "warn", "warning", "error", "exception"):
-            hooks["self.logger." + lv] = lambda *a: None
+            hooks["self.logger." + lv] = lambda *a, **k: None
         state = _init_fields(ctx, rs)
         state.update({"services": {}, "pruning_timeout": TMO})
         extra = {"__calls__": hooks, "__methods__": {k: v for k, v in methods.items() if k not in ("on_service_added", "on_service_removed")}}
